@@ -230,6 +230,7 @@ func (r *runner) kill(name, how string) {
 	p.Kill()
 	r.crashes++
 	r.torn = "between"
+	how, cutAt, _ := strings.Cut(how, "@")
 	switch {
 	case how == "kill-partial" && point == "append.before" && line != "":
 		f, err := os.OpenFile(path, os.O_APPEND|os.O_WRONLY, 0o644)
@@ -240,6 +241,24 @@ func (r *runner) kill(name, how string) {
 				if line[i] >= 0x80 && i+1 < len(line) && line[i+1] >= 0x80 && line[i+1] < 0xc0 {
 					cut = i + 1
 					break
+				}
+			}
+			nl := strings.IndexByte(line, '\n')
+			switch cutAt {
+			case "one":
+				cut = 1
+			case "brace":
+				// "...}}\n": keep everything up to and including the inner brace
+				if nl >= 2 && line[nl-1] == '}' && line[nl-2] == '}' {
+					cut = nl - 1
+				}
+			case "quote":
+				if i := strings.LastIndexByte(line[:cut+1], '"'); i > 0 {
+					cut = i + 1
+				}
+			case "line2":
+				if nl >= 0 && nl+1 < len(line) {
+					cut = nl + 1 + (len(line)-nl-1)/2
 				}
 			}
 			_, _ = f.WriteString(line[:cut])
